@@ -2,7 +2,7 @@
 import random, itertools
 from mast import *   # noqa
 
-INTS = [0, 1, 2, 7, -3, 100, 32767, -32768, 32768, 40000, 2147483647]
+INTS = [0, 1, -1, 2, 7, -3, 100, 32767, -32768, 32768, 40000, 2147483647]
 STRS = ["", "a", "ab", "B"]
 OPS = ["+", "-", "*", "/", "mod", "and", "or", "=", "<>", "<", "<=", ">", ">="]
 
